@@ -139,6 +139,17 @@ def kernels(rep, F, D):
             containment(rep, key, a, paths, fn)
 
 
+def _calls_named(t, name, out=None, depth=0):
+    out = [] if out is None else out
+    if isinstance(t, tuple) and depth < 80:
+        if t and t[0] == "call" and isinstance(t[1], str) and t[1].rsplit("::", 1)[-1] == name:
+            out.append(t)
+        for x in t:
+            if isinstance(x, tuple):
+                _calls_named(x, name, out, depth + 1)
+    return out
+
+
 def containment(rep, key, a, paths, fn):
     problems = []
     kinds = set()
@@ -177,6 +188,14 @@ def containment(rep, key, a, paths, fn):
                 ks = {k[-1] for k, v in atoms.items() if k.startswith("contains") and v == 1}
             for k in ks:
                 kinds.add("holes-of-a%s" % k)
+                # what is measured against the holes of operand k must be the OTHER operand (its exterior / itself), never operand k's own exterior
+                other = "3" if k == "2" else "2"
+                for c in _calls_named(p.ret, "nearest_neighbour_distance"):
+                    args = [show(x) for x in c[2]]
+                    hole_args = [x for x in args if re.search(r"a%s\.interiors|interiors\(&?\*?a%s" % (k, k), x)]
+                    rest = [x for x in args if x not in hole_args]
+                    if hole_args and rest and not any(re.search(r"\ba%s\b" % other, x) for x in rest):
+                        problems.append("inside a hole of operand a%s the distance is measured between that hole and %s, not the other operand a%s" % (k, rest[0][:80], other))
                 if atoms.get("contains%s" % k) != 1:
                     problems.append("hole distances of operand a%s are used on a path where its exterior was not found to contain the other operand [%s]" % (k, show_pc(p.pc)[:160]))
         elif "nearest_neighbour_distance" in r or "distance" in r:
